@@ -71,13 +71,15 @@ func searchFieldName(p *thrift.BinaryProtocol, id string, f *thrift.FieldDescrip
 	// if _, err := p.ReadStructBegin(); err != nil {
 	// 	return 0, start, wrapError(meta.ErrReadInput, "", err)
 	// }
+	// a missing field is inserted at the front of THIS struct (not of the root value)
+	begin := p.Read
 	for {
 		_, t, i, err := p.ReadFieldBegin()
 		if err != nil {
-			return 0, start, wrapError(meta.ErrRead, "", err)
+			return 0, start, errNode(meta.ErrRead, "", err)
 		}
 		if t == thrift.STOP {
-			return thrift.STRUCT, start, errNotFound
+			return thrift.STRUCT, begin, errNotFound
 		}
 		if f.ID() == thrift.FieldID(i) {
 			// if t != f.Type().Type() {
@@ -88,7 +90,7 @@ func searchFieldName(p *thrift.BinaryProtocol, id string, f *thrift.FieldDescrip
 			break
 		}
 		if err := p.Skip(t, UseNativeSkipForGet); err != nil {
-			return thrift.STRUCT, start, wrapError(meta.ErrRead, "", err)
+			return 0, start, errNode(meta.ErrRead, "", err)
 		}
 	}
 	return
